@@ -5,6 +5,7 @@ import (
 	"time"
 
 	"github.com/form3tech-oss/f1/v2/internal/metrics"
+	"github.com/form3tech-oss/f1/v2/internal/verifhook"
 )
 
 type Stats struct {
@@ -29,6 +30,7 @@ func (s *Stats) Record(result metrics.ResultType, nanoseconds int64) {
 func (s *Stats) Snapshot(period time.Duration) Snapshot {
 	recentSufessfull, lifetimeSuccessful := s.successfulIterationDurations.CollectLifetime()
 	_, lifetimeFailed := s.failedIterationDurations.CollectLifetime()
+	verifhook.Yield("ps.stats.collected", s, 0)
 
 	return Snapshot{
 		Period:                                period,
@@ -42,6 +44,7 @@ func (s *Stats) Snapshot(period time.Duration) Snapshot {
 func (s *Stats) Total() Snapshot {
 	_, lifetimeSuccessful := s.successfulIterationDurations.CollectLifetime()
 	_, lifetimeFailed := s.failedIterationDurations.CollectLifetime()
+	verifhook.Yield("ps.stats.collected", s, 1)
 
 	return Snapshot{
 		DroppedIterationCount:        s.droppedIterationCount.Load(),
